@@ -43,3 +43,7 @@ int g_cbk_n; Callback *g_cbk_f; int g_cbk_arg; Node *g_cbk_h; int g_cci_n, g_cci
 int g_small_ctor, g_small_dtor, g_big_ctor, g_big_dtor;
 const char g_tag_funcFreeObject_Small, g_tag_funcFreeObject_LD, g_tag_funcFreeObject_Big, g_tag_funcMoveConstruct_Small, g_tag_funcMoveConstruct_LD, g_tag_funcMoveConstruct_Big, g_tag_funcDeleteObject_Small, g_tag_funcDeleteObject_Big;
 #endif
+#ifdef UNIT_HQUEUE
+Slot g_S0, g_anon; int g_kind, g_kind_was, g_argid, g_event, g_disp, g_pred; _Bool g_verdict, g_born, g_dead, g_cur_is_w; void *g_cur_addr; unsigned long g_seq;
+const char g_dtor_tag_ItemV, g_dtor_tag_ItemW; WList *g_rm_list; long g_rm_idx; WList *g_ins_list; long g_ins_idx;
+#endif
